@@ -221,8 +221,8 @@ func (o c17Op) String() string {
 		return fmt.Sprintf("NextOffset(%q, %d)", o.Topic, o.Part)
 	case "CommitConsumerOffset":
 		return fmt.Sprintf("CommitConsumerOffset(%q, %q, %d, %d, %q)", o.Group, o.Topic, o.Part, o.N, o.Meta)
-	case "FetchConsumerOffset":
-		return fmt.Sprintf("FetchConsumerOffset(%q, %q, %d)", o.Group, o.Topic, o.Part)
+	case "FetchConsumerOffset", "LookupConsumerOffset":
+		return fmt.Sprintf("%s(%q, %q, %d)", o.Kind, o.Group, o.Topic, o.Part)
 	case "PutConsumerGroup":
 		if o.NilArg {
 			return "PutConsumerGroup(nil)"
@@ -289,6 +289,19 @@ func c17Apply(s Store, o c17Op) (res c17Res) {
 		off, meta, err := s.FetchConsumerOffset(ctx, o.Group, o.Topic, o.Part)
 		set(err)
 		res.KV = append(res.KV, c17KV{Path: "offset", Key: "offset", Val: fmt.Sprint(off)}, c17KV{Path: "metadata", Key: "metadata", Val: meta})
+	case "LookupConsumerOffset":
+		// the optional read interface both stores implement (the group coordinator uses it to tell
+		// "no commit" from "committed offset 0")
+		l, ok := s.(ConsumerOffsetLookup)
+		res.KV = append(res.KV, c17KV{Path: "lookup_implemented", Key: "lookup_implemented", Val: fmt.Sprint(ok)})
+		if !ok {
+			set(nil)
+			break
+		}
+		off, meta, found, err := l.LookupConsumerOffset(ctx, o.Group, o.Topic, o.Part)
+		set(err)
+		res.KV = append(res.KV, c17KV{Path: "offset", Key: "offset", Val: fmt.Sprint(off)}, c17KV{Path: "metadata", Key: "metadata", Val: meta},
+			c17KV{Path: "found", Key: "found", Val: fmt.Sprint(found)})
 	case "ListConsumerOffsets":
 		l, err := s.ListConsumerOffsets(ctx)
 		set(err)
@@ -414,6 +427,7 @@ type c17Gen struct {
 	deleted map[string]bool           // topic was deleted at least once
 	offs    map[string]map[int32]bool // partitions whose next offset was ever written (any incarnation of the name)
 	state   map[string]bool           // live topic holds written state (next offset or stored config) in its current incarnation
+	prev    *c17Prev                  // last accepted value of every record (overwrite workload)
 }
 
 func (g *c17Gen) wrote(topic string, part int32) {
@@ -468,8 +482,7 @@ func (g *c17Gen) guided() c17Op {
 	case r < 57:
 		return c17Op{Kind: "FetchTopicConfig", Topic: t}
 	case r < 68:
-		return c17Op{Kind: "CommitConsumerOffset", Group: g.group(), Topic: t, Part: p, N: 1000 + g.next(),
-			Meta: c17MetaAlphabet[g.rng.Intn(len(c17MetaAlphabet))] + fmt.Sprintf("#%d", g.ctr)}
+		return c17Op{Kind: "CommitConsumerOffset", Group: g.group(), Topic: t, Part: p, N: 1000 + g.next(), Meta: g.meta()}
 	case r < 76 && n < 12:
 		return c17Op{Kind: "CreatePartitions", Topic: t, N: int64(n) + 1 + int64(g.rng.Intn(3))}
 	default:
@@ -497,6 +510,9 @@ func (g *c17Gen) groupValue() *metadatapb.ConsumerGroup {
 		Protocol:     []string{"range", "roundrobin", ""}[g.rng.Intn(3)],
 		GenerationId: int32(n),
 	}
+	if g.rng.Intn(6) == 0 {
+		out.GenerationId = 0
+	}
 	if g.rng.Intn(8) == 0 {
 		out.GroupId = ""
 	}
@@ -510,6 +526,12 @@ func (g *c17Gen) groupValue() *metadatapb.ConsumerGroup {
 	for i := 0; i < nm; i++ {
 		id := fmt.Sprintf("%s-member-%d", out.GroupId, g.next())
 		m := &metadatapb.GroupMember{ClientId: fmt.Sprintf("client-%d", g.rng.Intn(3)), ClientHost: "/10.0.0." + fmt.Sprint(g.rng.Intn(9))}
+		if g.rng.Intn(6) == 0 {
+			m.ClientId = ""
+		}
+		if g.rng.Intn(6) == 0 {
+			m.ClientHost = ""
+		}
 		if g.rng.Intn(3) > 0 {
 			m.SessionTimeoutMs = int32(2000 + g.next())
 		}
@@ -560,7 +582,11 @@ func (g *c17Gen) configValue() *metadatapb.TopicConfig {
 }
 
 func (g *c17Gen) op() c17Op {
-	if g.rng.Intn(100) < 45 {
+	r := g.rng.Intn(120)
+	switch {
+	case r < 20: // one call in six rewrites a record that both stores already hold (c17_overwrite_test.go)
+		return g.overwrite()
+	case r < 65: // of the others 45% guided, 55% blind, as before
 		return g.guided()
 	}
 	return g.blind()
@@ -582,10 +608,11 @@ func (g *c17Gen) blind() c17Op {
 	case r < 37:
 		return c17Op{Kind: "NextOffset", Topic: g.topic(), Part: g.part()}
 	case r < 49:
-		return c17Op{Kind: "CommitConsumerOffset", Group: g.group(), Topic: g.topic(), Part: g.part(), N: 1000 + g.next(),
-			Meta: c17MetaAlphabet[g.rng.Intn(len(c17MetaAlphabet))] + fmt.Sprintf("#%d", g.ctr)}
-	case r < 59:
+		return c17Op{Kind: "CommitConsumerOffset", Group: g.group(), Topic: g.topic(), Part: g.part(), N: 1000 + g.next(), Meta: g.meta()}
+	case r < 55:
 		return c17Op{Kind: "FetchConsumerOffset", Group: g.group(), Topic: g.topic(), Part: g.part()}
+	case r < 59:
+		return c17Op{Kind: "LookupConsumerOffset", Group: g.group(), Topic: g.topic(), Part: g.part()}
 	case r < 63:
 		return c17Op{Kind: "ListConsumerOffsets"}
 	case r < 71:
@@ -689,6 +716,7 @@ type c17Hist struct {
 	topicDeletedAt map[string]int   // index of the last DeleteTopic both stores accepted
 	cfgUpdatedAt   map[string]int   // last accepted UpdateTopicConfig since the topic was (re)created
 	partsGrownAt   map[string]int   // last accepted CreatePartitions since the topic was (re)created
+	offsetAt       map[c17Part]int  // index of the last UpdateOffsets both stores accepted
 }
 
 type c17Finding struct{ Class, Detail string }
@@ -716,6 +744,17 @@ func (h *c17Hist) pathPrefixDeletedAfterCommit(tu c17Tuple) (c17Op, bool) {
 		}
 	}
 	return c17Op{}, false
+}
+
+// pathPrefixDeletedAfter: topic contains '/', and after operation index at a DeleteTopic of a
+// *different* topic d with topic = d + "/" + rest was accepted.
+func (h *c17Hist) pathPrefixDeletedAfter(topic string, at int) bool {
+	for d, di := range h.topicDeletedAt {
+		if di > at && d != "" && strings.HasPrefix(topic, d+"/") {
+			return true
+		}
+	}
+	return false
 }
 
 // c17Findings compares the two results of one operation. Every difference
@@ -815,12 +854,20 @@ func (h *c17Hist) findings(o c17Op, mem, etcd c17Res) []c17Finding {
 			add("topic_config_rf_etcd_reports_partition_count", det)
 		case side == "" && e.Path == "topic_config.partitions" && h.staleAfterGrowth(o.Topic, x.Val):
 			add("topic_config_partitions_stale_in_etcd_after_CreatePartitions", det)
-		case side == "" && o.Kind == "FetchConsumerOffset" && (e.Path == "offset" || e.Path == "metadata"):
-			if c, ok := h.deletedAfterCommit(c17Tuple{o.Group, o.Topic, o.Part}); ok &&
-				((e.Path == "offset" && x.Val == fmt.Sprint(c.N) && y.Val == "0") || (e.Path == "metadata" && x.Val == c.Meta && y.Val == "")) {
+		case o.Kind == "NextOffset" && side == "" && e.Path == "next_offset" && h.nextOffsetWipedByPathPrefixDelete(o, x.Val, y.Val):
+			add("next_offset_of_slash_topic_wiped_by_etcd_DeleteTopic_of_its_path_prefix", det)
+		case o.Kind == "FetchTopicConfig" && h.configWipedByPathPrefixDelete(o, e, side, x.Val, y.Val):
+			add("topic_config_of_slash_topic_wiped_by_etcd_DeleteTopic_of_its_path_prefix", det)
+		case side == "" && (o.Kind == "FetchConsumerOffset" || o.Kind == "LookupConsumerOffset") && (e.Path == "offset" || e.Path == "metadata" || e.Path == "found"):
+			// memory still answers exactly the last commit, etcd answers "nothing committed"
+			// ("found" exists only in LookupConsumerOffset results)
+			kept := func(c c17Op) bool {
+				return (e.Path == "offset" && x.Val == fmt.Sprint(c.N) && y.Val == "0") || (e.Path == "metadata" && x.Val == c.Meta && y.Val == "") ||
+					(e.Path == "found" && x.Val == "true" && y.Val == "false")
+			}
+			if c, ok := h.deletedAfterCommit(c17Tuple{o.Group, o.Topic, o.Part}); ok && kept(c) {
 				add("consumer_offset_kept_by_memory_after_DeleteTopic", det)
-			} else if c, ok := h.pathPrefixDeletedAfterCommit(c17Tuple{o.Group, o.Topic, o.Part}); ok &&
-				((e.Path == "offset" && x.Val == fmt.Sprint(c.N) && y.Val == "0") || (e.Path == "metadata" && x.Val == c.Meta && y.Val == "")) {
+			} else if c, ok := h.pathPrefixDeletedAfterCommit(c17Tuple{o.Group, o.Topic, o.Part}); ok && kept(c) {
 				add("consumer_offset_of_slash_topic_wiped_by_etcd_DeleteTopic_of_its_path_prefix", det)
 			} else {
 				add(o.Kind+":"+e.Path, det)
@@ -830,6 +877,43 @@ func (h *c17Hist) findings(o c17Op, mem, etcd c17Res) []c17Finding {
 		}
 	}
 	return out
+}
+
+// nextOffsetWipedByPathPrefixDelete: the topic name contains '/', after the last accepted
+// UpdateOffsets of the partition a DeleteTopic of the name's path prefix was accepted, memory
+// answers exactly that write and etcd answers "never written".
+func (h *c17Hist) nextOffsetWipedByPathPrefixDelete(o c17Op, memVal, etcdVal string) bool {
+	wi, ok := h.offsetAt[c17Part{o.Topic, o.Part}]
+	return ok && h.pathPrefixDeletedAfter(o.Topic, wi) && memVal == fmt.Sprint(h.ops[wi].N+1) && etcdVal == "0"
+}
+
+// configWipedByPathPrefixDelete: the topic name contains '/', after the last accepted
+// UpdateTopicConfig of the topic a DeleteTopic of the name's path prefix was accepted, memory
+// answers exactly what that update stored and etcd answers the default it derives from the snapshot.
+func (h *c17Hist) configWipedByPathPrefixDelete(o c17Op, e c17KV, side, memVal, etcdVal string) bool {
+	ui, ok := h.cfgUpdatedAt[o.Topic]
+	if !ok || !h.pathPrefixDeletedAfter(o.Topic, ui) {
+		return false
+	}
+	stored := ""
+	for _, w := range c17Config(h.ops[ui].CfgV) {
+		if w.Key == e.Key {
+			stored = w.Val
+		}
+	}
+	switch {
+	case side == "(only_memory)" && e.Path == "topic_config.config":
+		return memVal == stored
+	case side != "":
+		return false
+	case e.Path == "topic_config.retention_ms" || e.Path == "topic_config.retention_bytes":
+		return memVal == stored && etcdVal == "-1"
+	case e.Path == "topic_config.segment_bytes":
+		return memVal == stored && etcdVal == "0"
+	case e.Path == "topic_config.partitions": // an explicit count was stored; the default reports the real one
+		return memVal == stored && stored != "0"
+	}
+	return false
 }
 
 // staleAfterGrowth: an accepted CreatePartitions(topic, n) came after an accepted
@@ -853,7 +937,7 @@ const c17Workers = 4
 
 func TestVerifC17Diff(t *testing.T) {
 	r := verifkit.Start(t, "C17", "diff")
-	defer r.Finish("identical PRNG operation sequences through the Store interface on a fresh InMemoryStore and a fresh EtcdStore (embedded etcd, empty keyspace, assembled like NewEtcdStore - every field the real constructor initialises is initialised the same way - with observable KV/Watcher so the harness can wait until the store has finished reacting to its own snapshot writes); 3 topic names and 2-3 group ids per case, two times out of three drawn from one family of legal names that are string prefixes or near-prefixes of each other (orders/orders-v2/orders.v2/orders2, a/ab/a.b/a-b, t/t1/t10/t1.x, g1/g10/g1.x, bill/billing/billing-2), a quarter of the cases add one illegal or odd name; 45% of the operations are state-guided (create a missing topic, write next offsets / config / commits to existing partitions, grow, delete a topic that holds state, re-create it under the same name on the same store instances), the rest are drawn blindly (missing topics, invalid and nil arguments); after every operation the two canonicalised results (error sentinel class, every returned field except the wall-clock created_at, list results as sets, Metadata topic order as returned) must be equal; after every accepted CreateTopic/DeleteTopic the next offset of every partition ever written and the config of every topic holding state are read back for ALL names of the case; at the end a full read-back of every name, partition, tuple and group used; non-trivial = a case in which both stores accepted at least one topic mutation, one consumer-offset commit and one group put and in which at least 10 results carried data; floors: a quarter of the cases must read a next offset of a re-created name whose earlier incarnation had written it, an eighth must delete a topic beside a live prefix-related topic that holds state",
+	defer r.Finish("identical PRNG operation sequences through the Store interface on a fresh InMemoryStore and a fresh EtcdStore (embedded etcd, empty keyspace, assembled like NewEtcdStore - every field the real constructor initialises is initialised the same way - with observable KV/Watcher so the harness can wait until the store has finished reacting to its own snapshot writes); 3 topic names and 2-3 group ids per case, two times out of three drawn from one family of legal names that are string prefixes or near-prefixes of each other (orders/orders-v2/orders.v2/orders2, a/ab/a.b/a-b, t/t1/t10/t1.x, g1/g10/g1.x, bill/billing/billing-2), a quarter of the cases add one illegal or odd name; one operation in six is an OVERWRITE of a record that both stores already hold - a committed consumer offset with its metadata string, a consumer-group record (same group id, same member ids), a topic config with its config map, the next offset of a partition - whose new value is derived from the held one: every field that held a non-zero value goes to its zero value (empty string, 0, -1, nil or empty list/map, member / assignment / config key removed) half of the time, every field that held a zero value gets a fresh non-zero value 7 times out of 10 (first writes also carry zero values: a quarter of the commits have no metadata); of the other operations 45% are state-guided (create a missing topic, write next offsets / config / commits to existing partitions, grow, delete a topic that holds state, re-create it under the same name on the same store instances), the rest are drawn blindly (missing topics, invalid and nil arguments); after every operation the two canonicalised results (error sentinel class, every returned field except the wall-clock created_at, list results as sets, Metadata topic order as returned) must be equal; every write of such a record that both stores accepted is followed at once by the reads of exactly that record (FetchConsumerOffset and LookupConsumerOffset - offset, metadata, found - / FetchConsumerGroup / FetchTopicConfig / NextOffset) and, one time in three after an overwrite, by the list operation covering it, so that a later write cannot hide what this one left behind; after every accepted CreateTopic/DeleteTopic the next offset of every partition ever written and the config of every topic holding state are read back for ALL names of the case; at the end a full read-back of every name, partition, tuple and group used; non-trivial = a case in which both stores accepted at least one topic mutation, one consumer-offset commit and one group put and in which at least 10 results carried data; floors: a quarter of the cases must read a next offset of a re-created name whose earlier incarnation had written it, an eighth must delete a topic beside a live prefix-related topic that holds state, and per record kind (commit, group, config, next offset) a fifth of the cases must read back a record in which a field went from non-zero to zero and a sixth (next offset: a twelfth) one in which a field went from zero to non-zero",
 		"names and strings are valid UTF-8 (proto3/JSON encoders reject or rewrite other bytes)",
 		"sequential callers; each call starts after the etcd store has processed its own earlier snapshot writes (the pending-refresh hazard belongs to C21)",
 		"wall-clock fields (TopicConfig.created_at, the etcd record's committed_at) are excluded by name; caller-supplied heartbeat_at is data and is compared",
@@ -881,6 +965,13 @@ func TestVerifC17Diff(t *testing.T) {
 	r.Floor("cases_all_kinds_accepted", int64(n)/4)
 	r.Floor("cases_reading_next_offset_after_recreate", int64(n)/4)
 	r.Floor("cases_deleting_beside_prefix_related_topic", int64(n)/8)
+	for _, kind := range []string{"commit", "group", "config", "next_offset"} {
+		r.Floor("cases_reading_zero_after_nonzero."+kind, int64(n)/5)
+	}
+	for _, kind := range []string{"commit", "group", "config"} {
+		r.Floor("cases_reading_nonzero_after_zero."+kind, int64(n)/6)
+	}
+	r.Floor("cases_reading_nonzero_after_zero.next_offset", int64(n)/12)
 }
 
 // c17Infra: the embedded etcd (not the store) failed — deadline of the store's own 3 s/5 s
@@ -906,6 +997,7 @@ func c17Case(r *verifkit.Run, admin *clientv3.Client, endpoints []string, ns str
 
 type c17Pending struct {
 	counts map[string]int64
+	seen   map[string]map[string]bool
 	viols  []struct {
 		class, summary string
 		replay         any
@@ -913,10 +1005,16 @@ type c17Pending struct {
 }
 
 func (p *c17Pending) count(name string, n int64) { p.counts[name] += n }
+func (p *c17Pending) see(set, member string) {
+	if p.seen[set] == nil {
+		p.seen[set] = map[string]bool{}
+	}
+	p.seen[set][member] = true
+}
 
 func c17Attempt(r *verifkit.Run, admin *clientv3.Client, endpoints []string, ns string, ci int) (bool, string) {
 	rng := r.Rand(ci)
-	gen := &c17Gen{rng: rng, live: map[string]int32{}, deleted: map[string]bool{}, offs: map[string]map[int32]bool{}, state: map[string]bool{}}
+	gen := &c17Gen{rng: rng, live: map[string]int32{}, deleted: map[string]bool{}, offs: map[string]map[int32]bool{}, state: map[string]bool{}, prev: c17NewPrev()}
 	gen.odd = rng.Intn(4) == 0
 	gen.topics = c17Pick(rng, c17TopicFamilies, c17LooseTopics, 3)
 	gen.groups = c17Pick(rng, c17GroupFamilies, c17LooseGroups, 2+rng.Intn(2))
@@ -937,9 +1035,9 @@ func c17Attempt(r *verifkit.Run, admin *clientv3.Client, endpoints []string, ns 
 	}
 	defer es.Shutdown()
 
-	h := &c17Hist{commitAt: map[c17Tuple]int{}, topicDeletedAt: map[string]int{}, cfgUpdatedAt: map[string]int{}, partsGrownAt: map[string]int{}}
-	pend := &c17Pending{counts: map[string]int64{}}
-	nops := 15 + rng.Intn(45)
+	h := &c17Hist{commitAt: map[c17Tuple]int{}, topicDeletedAt: map[string]int{}, cfgUpdatedAt: map[string]int{}, partsGrownAt: map[string]int{}, offsetAt: map[c17Part]int{}}
+	pend := &c17Pending{counts: map[string]int64{}, seen: map[string]map[string]bool{}}
+	nops := 18 + rng.Intn(54) // a sixth of the calls are overwrites, the rest as many as before
 	var trace []string
 	withData, topicMut, commits, puts := 0, 0, 0, 0
 	tuples := map[c17Tuple]bool{}
@@ -952,6 +1050,8 @@ func c17Attempt(r *verifkit.Run, admin *clientv3.Client, endpoints []string, ns 
 	curOffs := map[string]map[int32]bool{} // partitions of a live topic whose next offset was written in its current incarnation
 	stale := map[string]map[int32]bool{}   // partitions written in an earlier, deleted incarnation of the name and not written since
 	recreatedRead, siblingDeletes := 0, 0
+	var written *c17Overwrite // the last accepted write of a record, not yet read back
+	zeroed, filled := map[string]bool{}, map[string]bool{}
 
 	step := func(o c17Op) bool {
 		if !es.Quiesce() {
@@ -990,7 +1090,12 @@ func c17Attempt(r *verifkit.Run, admin *clientv3.Client, endpoints []string, ns 
 				map[string]any{"case": ci, "initial": c17DescribeInitial(initial), "ops": append([]string{}, trace...), "difference": f.Detail}})
 		}
 		if a.Err == "ok" && b.Err == "ok" {
+			if w := gen.noteWrite(o); w != nil {
+				written = w
+			}
 			switch o.Kind {
+			case "DeleteConsumerGroup":
+				delete(gen.prev.group, o.Group)
 			case "CommitConsumerOffset":
 				tu := c17Tuple{o.Group, o.Topic, o.Part}
 				h.commitAt[tu] = idx
@@ -1010,6 +1115,7 @@ func c17Attempt(r *verifkit.Run, admin *clientv3.Client, endpoints []string, ns 
 				}
 				delete(gen.live, o.Topic)
 				delete(gen.state, o.Topic)
+				gen.prev.forgetTopic(o.Topic)
 				gen.deleted[o.Topic] = true
 				for p := range curOffs[o.Topic] {
 					if stale[o.Topic] == nil {
@@ -1031,11 +1137,15 @@ func c17Attempt(r *verifkit.Run, admin *clientv3.Client, endpoints []string, ns 
 				topicMut++
 				gen.live[o.Topic] = int32(o.N)
 			case "UpdateTopicConfig":
+				if o.NilArg {
+					break
+				}
 				h.cfgUpdatedAt[o.CfgV.Name] = idx
 				if _, live := gen.live[o.CfgV.Name]; live {
 					gen.state[o.CfgV.Name] = true
 				}
 			case "UpdateOffsets":
+				h.offsetAt[c17Part{o.Topic, o.Part}] = idx
 				gen.wrote(o.Topic, o.Part)
 				if n, live := gen.live[o.Topic]; live && o.Part < n {
 					gen.state[o.Topic] = true
@@ -1080,13 +1190,51 @@ func c17Attempt(r *verifkit.Run, admin *clientv3.Client, endpoints []string, ns 
 		return true
 	}
 
+	// readBack: every write of a record that both stores accepted is followed at once by the reads
+	// of exactly that record (a later write would hide what this one left behind), and one time in
+	// three, when it replaced an earlier value, by the list operation that covers the record.
+	readBack := func() bool {
+		w := written
+		written = nil
+		for _, rd := range w.reads {
+			if !step(rd) {
+				return false
+			}
+		}
+		pend.count("writes_read_back."+w.kind, 1)
+		if !w.over {
+			return true
+		}
+		pend.count("overwrites_read_back."+w.kind, 1)
+		for _, p := range w.toZero {
+			zeroed[w.kind] = true
+			pend.count("fields_zero_after_nonzero."+w.kind, 1)
+			pend.count("zero_after_nonzero:"+w.kind+":"+p, 1)
+			pend.see("field_zero_after_nonzero", w.kind+":"+p)
+		}
+		for _, p := range w.fromZero {
+			filled[w.kind] = true
+			pend.count("fields_nonzero_after_zero."+w.kind, 1)
+			pend.count("nonzero_after_zero:"+w.kind+":"+p, 1)
+			pend.see("field_nonzero_after_zero", w.kind+":"+p)
+		}
+		if w.list != "" && rng.Intn(3) == 0 {
+			return step(c17Op{Kind: w.list})
+		}
+		return true
+	}
+
 	ok := true
 	for i := 0; i < nops && ok; i++ {
 		o := gen.op()
-		if o.Kind == "FetchConsumerOffset" {
+		if o.Kind == "FetchConsumerOffset" || o.Kind == "LookupConsumerOffset" {
 			tuples[c17Tuple{o.Group, o.Topic, o.Part}] = true
 		}
+		written = nil
 		ok = step(o)
+		if ok && written != nil {
+			ok = readBack()
+		}
 		if ok && lifecycle != "" {
 			ok = probe()
 		}
@@ -1109,7 +1257,8 @@ func c17Attempt(r *verifkit.Run, admin *clientv3.Client, endpoints []string, ns 
 		}
 		sort.Slice(tl, func(i, j int) bool { return fmt.Sprint(tl[i]) < fmt.Sprint(tl[j]) })
 		for _, tu := range tl {
-			ok = ok && step(c17Op{Kind: "FetchConsumerOffset", Group: tu.G, Topic: tu.T, Part: tu.P})
+			ok = ok && step(c17Op{Kind: "FetchConsumerOffset", Group: tu.G, Topic: tu.T, Part: tu.P}) &&
+				step(c17Op{Kind: "LookupConsumerOffset", Group: tu.G, Topic: tu.T, Part: tu.P})
 		}
 	}
 	if !ok {
@@ -1117,6 +1266,19 @@ func c17Attempt(r *verifkit.Run, admin *clientv3.Client, endpoints []string, ns 
 	}
 	for k, v := range pend.counts {
 		r.Count(k, v)
+	}
+	for set, ms := range pend.seen {
+		for m := range ms {
+			r.Seen(set, m)
+		}
+	}
+	for _, kind := range []string{"commit", "group", "config", "next_offset"} {
+		if zeroed[kind] {
+			r.Count("cases_reading_zero_after_nonzero."+kind, 1)
+		}
+		if filled[kind] {
+			r.Count("cases_reading_nonzero_after_zero."+kind, 1)
+		}
 	}
 	for _, v := range pend.viols {
 		r.Violation(v.class, v.summary, v.replay)
